@@ -9,6 +9,7 @@ import (
 	"compress/flate"
 	"context"
 	"crypto/sha1"
+	"crypto/tls"
 	"fmt"
 	"io"
 	"log"
@@ -48,6 +49,9 @@ type spec struct {
 	// (which of EOF / closed pipe the surviving peer sees is a race of the harness, not of the library).
 	fault   int
 	faultAt int
+	// wss: the session dials wss://host<id>.c19.test with the library's DEFAULT TLS configuration (no TLSConfig,
+	// no TLSClient) against a crypto/tls server holding that host's certificate (ws.Upgrader / ws.Dialer sessions only)
+	wss bool
 }
 
 var errInjectedFault = fmt.Errorf("c19: injected connection write fault")
@@ -77,7 +81,7 @@ func errText(s spec, err error) string {
 }
 
 func (s spec) String() string {
-	return fmt.Sprintf("session %d: server=%d client=%d traffic=%d nmsg=%d seed=%d fault=%d@%d", s.id, s.server, s.client, s.traffic, s.nmsg, s.seed, s.fault, s.faultAt)
+	return fmt.Sprintf("session %d: server=%d client=%d traffic=%d nmsg=%d seed=%d fault=%d@%d wss=%v", s.id, s.server, s.client, s.traffic, s.nmsg, s.seed, s.fault, s.faultAt, s.wss)
 }
 
 var sizeClasses = []int{0, 1, 100, 127, 128, 129, 255, 256, 4095, 4096, 4097, 65535, 65536, 65537, 100000}
@@ -341,8 +345,19 @@ func runSession(s spec) *transcript {
 			if compressedMode(s) {
 				u.Negotiate = negotiator(t)
 			}
-			hs, err := u.Upgrade(sc)
-			serve(s, sc, hs, err, t)
+			var conn net.Conn = sc
+			if s.wss {
+				tc := tls.Server(sc, &tls.Config{Certificates: []tls.Certificate{hostCerts[s.id%tlsHosts]}})
+				herr := tc.Handshake()
+				t.add("S tls sni=%q err=%v", tc.ConnectionState().ServerName, herr != nil)
+				if herr != nil {
+					sc.Close()
+					return
+				}
+				conn = tc
+			}
+			hs, err := u.Upgrade(conn)
+			serve(s, conn, hs, err, t)
 		}()
 	}
 	d := ws.Dialer{Protocols: []string{"other.v9", protoOf(s)}, NetDial: func(ctx context.Context, n, a string) (net.Conn, error) { return cc, nil }}
@@ -362,11 +377,15 @@ func runSession(s spec) *transcript {
 		ctx, cancel = context.WithTimeout(ctx, 5*time.Minute)
 		defer cancel()
 	}
+	target := "ws://c19.example/s"
+	if s.wss {
+		target = "wss://" + hostName(s.id) + "/s"
+	}
 	if s.client == 1 {
 		dd := wsutil.DebugDialer{Dialer: d, OnRequest: func(p []byte) { t.add("C request %d bytes", len(keyless(p))) }, OnResponse: func(p []byte) {}}
-		conn, br, hs, err = dd.Dial(ctx, "ws://c19.example/s")
+		conn, br, hs, err = dd.Dial(ctx, target)
 	} else {
-		conn, br, hs, err = d.Dial(ctx, "ws://c19.example/s")
+		conn, br, hs, err = d.Dial(ctx, target)
 	}
 	t.add("C handshake err=%v protocol=%q ext=%s", err, hs.Protocol, extString(hs.Extensions))
 	if err != nil {
@@ -608,6 +627,9 @@ func specsFor(c *mon.C, n int, mix int) []spec {
 		case 3: // everything
 			s.server, s.client, s.traffic = i%2, (i/2)%2, i%4
 		}
+		if s.server == 0 && i%3 != 2 {
+			s.wss = true // most ws.Upgrader sessions run over TLS with the library's default client configuration
+		}
 		if i%5 == 3 && n > 4 { // one session in five breaks half way
 			s.fault = 1 + (i/5)%2
 			s.faultAt = 1 + int(s.seed)%(s.nmsg-1)
@@ -642,7 +664,7 @@ func subSessions() mon.Sub {
 			pool.Configure(true, pool.ReuseLIFO, false, true)
 			alone := make([]*transcript, n)
 			for i, s := range specs {
-				k := fmt.Sprintf("%d/%d/%d/%d/%d/%d@%d", s.seed, s.server, s.client, s.traffic, s.nmsg, s.fault, s.faultAt) + fmt.Sprint(s.id%2, s.id)
+				k := fmt.Sprintf("%d/%d/%d/%d/%d/%d@%d", s.seed, s.server, s.client, s.traffic, s.nmsg, s.fault, s.faultAt) + fmt.Sprint(s.id%2, s.id, s.wss)
 				baseMu.Lock()
 				b := baseline[k]
 				baseMu.Unlock()
@@ -703,7 +725,7 @@ func subSessions() mon.Sub {
 					continue
 				}
 				for _, l := range tc {
-					if strings.Contains(l, "ok=false") || strings.Contains(l, "error") {
+					if strings.Contains(l, "ok=false") || strings.Contains(l, "error") || (strings.HasPrefix(l, "C handshake") && !strings.Contains(l, "err=<nil>")) {
 						c.Fail(fmt.Sprintf("session/traffic%d", specs[i].traffic), "a session failed (also when run alone): "+l, map[string]interface{}{"session": specs[i].String(), "client": tc, "server": ts})
 						return
 					}
@@ -724,6 +746,13 @@ func subSessions() mon.Sub {
 			}
 			c.Run.AddExtra("sessions_run_concurrently", int64(n))
 			c.Run.AddExtra("sessions_with_injected_write_fault", int64(faulty))
+			nw := 0
+			for _, sp := range specs {
+				if sp.wss {
+					nw++
+				}
+			}
+			c.Run.AddExtra("sessions_over_tls_with_the_default_client_config", int64(nw))
 			c.Run.AddExtra("transcript_events_compared", int64(msgs))
 			c.Run.AddExtra("cross_goroutine_buffer_handoffs_observed", st1.CrossGoroutineHandoffs-st0.CrossGoroutineHandoffs)
 			c.Run.AddExtra("pool_objects_reused", st1.Reused-st0.Reused)
@@ -744,7 +773,7 @@ func main() {
 	mon.Main(&mon.Spec{
 		Property: "C19",
 		Level:    "exploration",
-		Rule: "built with -race and the pool shim (poison-on-put, deterministic LIFO reuse, runtime.Gosched injected inside every pool Get/Put - the only place sessions meet - and goroutine tracking). A case = N in {4,16,64} sessions, each a client goroutine + server goroutine over a buffered in-memory duplex, roles {ws.Upgrader, ws.HTTPUpgrader behind net/http} x {ws.Dialer, wsutil.DebugDialer, background/non-background contexts}, traffic {Read*Data/Write*Message helpers and header + CipherWriter streaming, Reader + GetWriter/PutWriter echo, compressed frames via wsflate.Helper, compressed Writer/Reader stack with MessageState}, 3-6 messages of 0 B..100 KiB across the pool classes with pings carrying payloads and a closing handshake; GOMAXPROCS in {1,2,4,16}; 4 session mixes. " +
+		Rule: "built with -race and the pool shim (poison-on-put, deterministic LIFO reuse, runtime.Gosched injected inside every pool Get/Put - the only place sessions meet - and goroutine tracking). A case = N in {4,16,64} sessions, each a client goroutine + server goroutine over a buffered in-memory duplex, roles {ws.Upgrader, ws.HTTPUpgrader behind net/http} x {ws.Dialer, wsutil.DebugDialer, background/non-background contexts}, two thirds of the ws.Upgrader sessions over wss:// with the library's DEFAULT TLS client configuration (4 host names, per-host certificates of a private CA, SNI recorded) and one session in five with an injected connection write fault half way, traffic {Read*Data/Write*Message helpers and header + CipherWriter streaming, Reader + GetWriter/PutWriter echo, compressed frames via wsflate.Helper, compressed Writer/Reader stack with MessageState}, 3-6 messages of 0 B..100 KiB across the pool classes with pings carrying payloads and a closing handshake; GOMAXPROCS in {1,2,4,16}; 4 session mixes. " +
 			"Oracle: each session's transcript (handshake results, every echo verified, control events, close codes, errors, on both sides) must equal the transcript of the same seeded session run alone; no shim alarm; shared package-level values unchanged; the Go race detector reports counted by the supervisor (GORACE log_path, halt_on_error=0) over repeated rounds. distinct = (N, GOMAXPROCS, mix).",
 		Assumptions: []string{"race reports vary run to run: the whole workload is repeated (rounds) with different seeds", "a clean race-detector run is not freedom from races on unexplored interleavings: the evidence reports the cross-goroutine buffer hand-offs actually observed"},
 		RaceLogs:    true,
